@@ -70,7 +70,8 @@ def cases(draw):
                 s['lopts'] = draw(st.lists(st.sampled_from(LOPT_POOL),
                                            min_size=1, max_size=2,
                                            unique=True))
-        if s['kind'] in ('slib', 'shlib') and draw(st.integers(0, 2)) == 0:
+        if s['kind'] in ('slib', 'shlib') and not s.get('versioned') and \
+                draw(st.integers(0, 2)) == 0:
             decor['dual'].append(s['id'])
         if s['kind'] in ('exe', 'slib', 'shlib') and model['headers'] and \
                 draw(st.integers(0, 2)) == 0 and \
@@ -421,7 +422,10 @@ def prop_diff(rec):
             for e in cdbs['make']:
                 if 'output' not in e or 'arguments' not in e:
                     continue
-                out = posixpath.normpath(e['output'])
+                # (the step is identified by what its command line writes; for
+                # a versioned library `output` names the link-time name)
+                out = output_of('cc', e['arguments']) or \
+                    posixpath.normpath(e['output'])
                 ran = logs['make'].get(out)
                 if not ran:
                     continue       # not part of the default build
